@@ -2,7 +2,7 @@
 From Coq Require Import List String Ascii ZArith. Import ListNotations.
 From Coq Require Import List Bool.
 From SV Require Import Lib.Str Model.Types Model.Naming Model.Api Model.Back Proofs.GenProofs.
-From SV Require Import Model.FrontSmall Model.View Model.Front Proofs.WalkProofs Proofs.AttrProofs Proofs.WalkerTableProofs Proofs.ModuleProofs Model.Run Proofs.RunMoreProofs Proofs.ClassMarkerProofs.
+From SV Require Import Model.FrontSmall Model.View Model.Front Proofs.WalkProofs Proofs.AttrProofs Proofs.WalkerTableProofs Proofs.ModuleProofs Model.Run Proofs.RunMoreProofs Proofs.ClassMarkerProofs Proofs.EnumProofs.
 
 (* the attribute block contains one entry per public attribute (type-variable attributes excepted), no more *)
 Theorem C03_class_attributes_once : forall classes rmap nc ats inner acc names s r s',
@@ -88,6 +88,34 @@ Proof. exact run_attribute_names_unique. Qed.
 Theorem C03_method_is_rendered_in_place : forall classes rmap nc f indent rx s x s',
   function_string classes rmap nc f indent true rx s = Ok (x, s') -> g_todos s = [] -> x <> [].
 Proof. exact method_is_rendered_in_place. Qed.
+(* ENUM MEMBERS.  Analyzer: leaving an assignment statement inside an enum body never fails and appends exactly the instances
+   the statement named (several targets included), in order and each once, to the enum on the stack; each is registered
+   under its id; attributes, classes, functions, enums, modules and every frame below stay as they are *)
+Theorem C03_enum_assignment_adds_its_instances : forall st items e r,
+  vs_stack st = FAssign items :: FEnum e :: r ->
+  exists st', leave_assign st = Ok st' /\
+    vs_stack st' = FEnum (enum_add_instances e (flat_map inst_of items)) :: r /\
+    vs_attrs st' = vs_attrs st /\ vs_enums st' = vs_enums st /\ vs_classes st' = vs_classes st /\
+    vs_functions st' = vs_functions st /\ vs_modules st' = vs_modules st /\
+    vs_enum_insts st' = fold_left (fun d kv => dict_set (fst kv) (snd kv) d) (flat_map inst_of items) (vs_enum_insts st).
+Proof. exact leave_assign_enum. Qed.
+(* ... and one whole assignment statement of an enum body (entry, then exit): the enum on the stack gains exactly the names the
+   statement assigns - targets left to right, tuple targets flattened - under the ids <enum id>/<name>, after the instances
+   it had; the exit cannot fail once the entry has succeeded *)
+Theorem C03_enum_statement_adds_assigned_names : forall al d st lvs ut st1 w e r,
+  enter_assign al d st lvs ut = Ok (st1, w) -> vs_stack st = FEnum e :: r ->
+  exists nss st2, Forall2 (fun lv ns => lv_names lv = Ok ns) lvs nss /\ leave_assign st1 = Ok st2 /\
+    vs_stack st2 = FEnum (enum_add_instances e (map (fun n => (e_id e ++ K"/" ++ n, n)) (List.concat nss))) :: r.
+Proof. exact enum_assignment_statement. Qed.
+(* Generator: the stub of an enum is its signature and - when the record lists instances - a brace block with one line per
+   listed instance, in the order of the record, each once (the name passes through emit_name like every other name) *)
+Theorem C03_enum_stub_lists_every_instance_once : forall nc e,
+  enum_string nc e =
+    match e_instances e with
+    | [] => enum_signature nc e
+    | _ => enum_signature nc e ++ K" {" ++ NL ++ cat (map (instance_line nc) (e_instances e)) ++ K"}"
+    end.
+Proof. exact enum_string_instances. Qed.
 Print Assumptions C03_class_attributes_once.
 Print Assumptions C03_class_methods.
 Print Assumptions C03_front_module_inventory.
@@ -101,3 +129,6 @@ Print Assumptions C03_enum_test_is_the_source_test.
 Print Assumptions C03_module_stub_inventory.
 Print Assumptions C03_run_attribute_names_unique.
 Print Assumptions C03_method_is_rendered_in_place.
+Print Assumptions C03_enum_assignment_adds_its_instances.
+Print Assumptions C03_enum_stub_lists_every_instance_once.
+Print Assumptions C03_enum_statement_adds_assigned_names.
